@@ -18,11 +18,14 @@ type BoundedCheck struct {
 	Name  string
 	Pkg   string // package directory relative to the repo root
 	File  string // test file under /verif/bounded/<prop>/
+	Dir   string // directory under /verif/bounded/ when the harness is shared with another property (default: Prop)
 	Run   string // -run regexp
 	Bound string // the stated bound
 }
 
 var boundedChecks = map[string][]BoundedCheck{
+	"C02": {{Prop: "C02", Name: "canonicalize-routing", Pkg: "assertion/function/preprocess", Dir: "C19", File: "canonicalize_routing_test.go.txt", Run: "TestVerifCanonicalizeRouting",
+		Bound: "the bounded routing / canonical-form check of C19 (about 2,900 conditions, all valuations) - a nil check that is routed to the wrong branch or left un-canonicalised makes a guarded dereference reported"}},
 	"C05": {{Prop: "C05", Name: "engine-vs-reachability", Pkg: "inference", File: "engine_reachability_test.go.txt", Run: "TestVerifEngineReachability",
 		Bound: "every set of <= 5 (quick) / <= 6 (thorough) constraints over 4 sites (sources, sinks, flows), every observation order, real Engine vs reference reachability"}},
 	"C07": {{Prop: "C07", Name: "shapes-no-internal-error", Pkg: ".", File: "shapes_no_internal_error_test.go.txt", Run: "TestVerifShapesNoInternalError",
@@ -31,8 +34,12 @@ var boundedChecks = map[string][]BoundedCheck{
 		Bound: "every condition of a grammar of nil comparisons (both operand orders), a boolean, !, parentheses, ==/!= true/false (both operand orders), && and ||, nested to depth 2 (quick: ~3,500 conditions) / partly depth 3 (thorough), every valuation of the 3 atoms: the CFG rewritten by the real canonicalizeConditional reaches the then-branch exactly when the condition is true, and no branching block is left with a condition canonicalizeConditional is documented to rewrite"}},
 	"C20": {{Prop: "C20", Name: "contracted-call-shapes", Pkg: ".", File: "contracted_call_shapes_test.go.txt", Run: "TestVerifContractedCallShapes",
 		Bound: "7 one-parameter one-result callee bodies x 4 argument shapes (literal nil, nil-valued variable, maybe-nil parameter, non-nil) x 2 layouts (same package, callee in a dependency), run through the real analyzer: a dereference of the result that can panic at run time is reported"}},
+	"C10": {{Prop: "C10", Name: "annotation-placement", Pkg: ".", File: "annotation_placement_test.go.txt", Run: "TestVerifAnnotationPlacement",
+		Bound: "a nonnil annotation on a global variable and on a struct field, each declared plainly, in a parenthesised group of one and in a group of two specs (6 shapes), run through the real analyzer: a nil stored into the annotated site is reported in every form"}},
 	"C11": {{Prop: "C11", Name: "nolint-line-directives", Pkg: ".", File: "nolint_line_directive_test.go.txt", Run: "TestVerifNoLintLineDirectives",
 		Bound: "6 shapes of //nolint:nilaway comments inside and outside regions governed by //line directives (over-constraint and single-assertion conflicts, statement- and function-level comments, an adjusted file:line that aliases another physical line), run through the real analyzer: exactly the findings on the comment's own physical lines are suppressed"}},
+	"C12": {{Prop: "C12", Name: "doc-contains", Pkg: "util/asthelper", File: "doc_contains_test.go.txt", Run: "TestVerifDocContains",
+		Bound: "13 spellings of the comments before (and after) the package clause - line, block, directive-style, after a build constraint, trailing - through the real DocContains: a file contains the excluded docstring exactly when a comment before its package clause does"}},
 	"C13": {{Prop: "C13", Name: "prettyprint-strip-roundtrip", Pkg: ".", File: "prettyprint_roundtrip_test.go.txt", Run: "TestVerifPrettyPrintRoundTrip",
 		Bound: "all token sequences of length <= 4 (quick) / 5 (thorough) over 11 token kinds (words, `code`, \"paths\", nilability phrases, tabs, newlines, nested quote/backtick mixes)"}},
 }
@@ -40,7 +47,11 @@ var boundedChecks = map[string][]BoundedCheck{
 func runBounded(L *Loaded, rep *Report, verif string) {
 	for _, bc := range boundedChecks[rep.Prop] {
 		res := map[string]any{"name": bc.Name, "bound": bc.Bound, "label": "bounded (not a proof)"}
-		src := filepath.Join(verif, "bounded", bc.Prop, bc.File)
+		dirName := bc.Prop
+		if bc.Dir != "" {
+			dirName = bc.Dir
+		}
+		src := filepath.Join(verif, "bounded", dirName, bc.File)
 		body, err := os.ReadFile(src)
 		if err != nil {
 			res["result"] = "missing harness: " + err.Error()
